@@ -134,8 +134,8 @@ DecPlaces(d) ==
 
 \* Excel's general text form of a number; Open when not a short decimal
 NumToText(x) ==
-    IF ~SafeNum(x) THEN Open
-    ELSE IF x.d = 1 THEN Txt(IntToCodes(x.n))
+    IF x.d = 1 THEN Txt(IntToCodes(x.n))          \* a whole number of any (32-bit) size
+    ELSE IF ~SafeNum(x) THEN Open
     ELSE IF Abs(x.n) * 10000 < x.d THEN Open          \* |x| < 0.0001: plain or scientific spelling is a formatting matter
     ELSE LET k == DecPlaces(x.d) IN
          IF k < 0 THEN Open
@@ -180,7 +180,8 @@ TextToNum(s) ==
         oke  == ei = 0 \/ (AllDigits(edig) /\ Len(edig) > 0)
         hasDigit == \E i \in 1..Len(s) : IsDigit(s[i])
     IN IF ~(okm /\ oke) THEN (IF hasDigit THEN Open ELSE NotNum)   \* "2-2", "1/2", "3 Jan": date-looking text is left open
-       ELSE IF Len(ipart) + Len(fpart) > 4 \/ Len(edig) > 1 THEN Open
+       \* (whole numbers without exponent: up to nine digits; otherwise four significant digits, one exponent digit)
+       ELSE IF (Len(ipart) + Len(fpart) > 4 /\ ~(Len(fpart) = 0 /\ ei = 0 /\ di = 0 /\ Len(ipart) <= 9)) \/ Len(edig) > 1 THEN Open
        ELSE LET m == DigitsToNat(ipart \o fpart)
                 e == (IF eneg THEN -1 ELSE 1) * DigitsToNat(edig) - Len(fpart)
                 sm == IF neg THEN -m ELSE m
